@@ -807,7 +807,7 @@ _named_number = (
     (13, r"thirteen|dreizehn"),
     (14, r"fourteen|vierzehn"),
     (15, r"fifteen|fünfzehn"),
-    (16, r"sixteen|sechszehn"),
+    (16, r"sixteen|sechs?zehn"),
     (17, r"seventeen|siebzehn"),
     (18, r"eighteen|achtzehn"),
     (19, r"nineteen|neunzehn"),
@@ -818,11 +818,11 @@ _named_number = (
     (24, r"twentyfour|vierund?zwanzig"),
     (25, r"twentyfive|fünfund?zwanzig"),
     (26, r"twentysix|sechsund?zwanzig"),
-    (27, r"twentyseven|siebenud?zwanzig"),
+    (27, r"twentyseven|siebenund?zwanzig"),
     (28, r"twentyeight|achtund?zwanzig"),
     (29, r"twentynine|neunund?zwanzig"),
     (30, r"thirty|drei(ß|ss)ig"),
-    (31, r"thirtyone|einundrei(ß|ss)ig"),
+    (31, r"thirtyone|einund?drei(ß|ss)ig"),
 )
 _rule_named_number = "|".join(
     r"(?P<n_{}>{}\b)".format(n, expr) for n, expr in _named_number
